@@ -95,8 +95,14 @@ package cstate
 //@   ensures [currentSetSurvivesSave] forall i int :: 0 <= i && i < len(state.Validators.Validators) ==> kaidb.KeyValueWriter(batch).vprio[rawdb.recKey(types.valsKey(state.Validators))][i] == state.Validators.Validators[i].ProposerPriority
 
 // ---------------------------------------------------------------- C12: the change set is computed against the set it is applied to
+// Ghost: the height the evidence pool's clock (its copy of the state, which drives expiry) stands at.
+//@ ghost field EvidencePool.clock mathint
+//@ trusted func (p EvidencePool) Update(state LatestBlockState, ev types.EvidenceList)
+//@   modifies p.clock
+//@   ensures p.clock == state.LastBlockHeight
 //@ func (blockExec *BlockExecutor) ApplyBlock(state LatestBlockState, blockID types.BlockID, block *types.Block) (r LatestBlockState, h uint64, err error)
-//@   for C12
+//@   for C12 C19
+//@   atcall fireEvents requires [evidencePoolClockFollowsEveryBlock] blockExec.evpool.clock == state.LastBlockHeight
 //@   requires blockExec != nil && block != nil
 //@   modifies *
 //@   opt assumecallreqs
